@@ -141,9 +141,15 @@ func forms() []form {
 		{"tail-seq", "def f: if . < $n then .+1 | f else . end; def g: if . < $n then .+1 | g else . end; (0 | f), (0 | g) | . * 0 | g", "all"},
 		{"tail-in-generator", "range(3) as $k | def f: if . < $n then .+1 | f else . end; 0 | f", "all"},
 		{"tail-gen-emit", "def f: if . < $n then (if . % 5 == 0 then . else empty end), (.+1 | f) else empty end; 0 | f", "all"},
-		{"tail-try-body", "def f: if . < $n then (try (.+1) catch 0) | f else . end; 0 | f", "all"},
-		{"tail-optional", "def f: if . < $n then (.+1)? | f else . end; 0 | f", "all"},
-		{"tail-label", "def f: if . < $n then (label $l | .+1, break $l) | f else . end; 0 | f", "all"},
+		{"tail-try-body", "def f: if . < $n then (try (.+1) catch 0) | f else . end; 0 | f", "pend"},
+		{"tail-optional", "def f: if . < $n then (.+1)? | f else . end; 0 | f", "pend"},
+		{"tail-label", "def f: if . < $n then (label $l | .+1, break $l) | f else . end; 0 | f", "pend"},
+		{"tail-first", "def f: if . < $n then (first(., .+5) + 1) | f else . end; 0 | f", "pend"},
+		{"tail-alt-pending", "def f: if . < $n then ((.+1) // 0) | f else . end; 0 | f", "pend"},
+		{"tail-comma-left", "def f: if . < $n then (.+1 | f), empty else . end; 0 | f", "pend"},
+		// mutual recursion through a nested definition (every call in tail position, no choice point pending)
+		{"tail-mutual", "def f: def g: if . < $n then .+1 | f else . end; g; 0 | f", "all"},
+		{"tail-mutual2", "def f: if . < $n then .+1 | (def g: f; g) else . end; 0 | f", "all"},
 		{"tail-object", "def f: if .i < $n then {i: (.i+1), s: (.s+.i)} | f else .s end; {i:0,s:0} | f", "all"},
 		{"tail-path", "def f: if .[0] < $n then (.[0] |= .+1) | f else .[0] end; [0] | f", "all"},
 		{"until-nested", "0 | until(. >= $n; . as $k | 0 | until(. >= 3; .+1) | $k + 1)", "all"},
@@ -199,7 +205,7 @@ func measureRun(f form, n int) (m measure) {
 		}
 	}()
 	for {
-		if f.mode == "take" && m.outputs >= n {
+		if f.mode == "take" && m.outputs >= n { // mode "pend" consumes everything, like "all"
 			break
 		}
 		v, ok := it.Next()
@@ -283,7 +289,7 @@ func runFp(c *Ctx) {
 func genTailRec(r *Rng, count int) []form {
 	var fs []form
 	steps := []string{".+1", ". as $p | $p + 1", "[., 1] | add", "(.+1) as $q | $q", "if . % 2 == 0 then .+1 else .+1 end", "{a: .} | .a + 1",
-		"(null // .) + 1", "first(., .+5) + 1", "[range(3)] | length - 2 + $t", "try (.+1) catch 0", "reduce (1) as $o (.; . + $o)", "(.+1 | tostring | tonumber)"}
+		"(null // .) + 1", "[range(3)] | length - 2 + $t", "reduce (1) as $o (.; . + $o)", "[.] | .[0] + 1", "if . < 0 then empty else .+1 end", "(.+1 | tostring | tonumber)"}
 	for i := 0; i < count; i++ {
 		step := steps[r.Intn(len(steps))]
 		step = strings.ReplaceAll(step, "$t", ".")
